@@ -66,7 +66,10 @@ def decode_rules(ctx, tab):
         return
     m = next((n for n in fv.nodes if n.get("k") == "match"), None)
     if m is None:
-        ctx.fail("C02.T1", "numeric_to_kmer:match", "digit -> letter match not found", fv.fn["sp"])
+        if table_decode_rules(ctx, fv, tab):
+            return
+        ctx.fail("C02.T1", "numeric_to_kmer:match", "digit -> letter mapping (match on `code & 3`, or a 4-entry letter "
+                 "table indexed by it) not found", fv.fn["sp"])
         return
     # scrutinee = <working copy> & 3
     st = fv.term(m["e"])
@@ -98,6 +101,13 @@ def decode_rules(ctx, tab):
     ctx.check("C02.T1", "numeric_to_kmer:no_extra", not extra and wild_ok,
               "no other digit produces a letter", "extra decode arms %s or a non-diverging wildcard" % sorted(extra),
               line_of(m))
+    loop_rules(ctx, fv, m)
+
+
+def loop_rules(ctx, fv, m):
+    pi = param_index(fv, "kmer")
+    work = [b for lid, b in fv.binds.items() if b["mut"] and b["val"][0] == "node"
+            and fv.term(b["val"][1]) == ("param", pi)]
     # S2: loop: push(c); code >>= 2 ; k trips; result reversed
     loop = next((n for n in fv.nodes if n.get("k") == "for"), None)
     if loop is None or not work:
@@ -121,7 +131,8 @@ def decode_rules(ctx, tab):
               "code >>= 2 per digit", "per-iteration code update is `%s`, expected `code >> 2`" % show(state[wv]),
               line_of(loop))
     pushes = [e for e in eff if e[0] == "call" and e[1].endswith("String::push")]
-    push_ok = len(pushes) == 1 and pushes[0][3][0] == "match" and pushes[0][3][1] == mk_bin("&", wv, L(3))
+    push_ok = len(pushes) == 1 and pushes[0][3][0] in ("match", "index") and \
+        contains(pushes[0][3], lambda s_: s_ == mk_bin("&", wv, L(3)))
     ctx.check("C02.S2", "numeric_to_kmer:push", push_ok, "one letter pushed per digit, from the un-shifted code",
               "expected exactly one `s.push(letter(code & 3))` before the shift; found %s"
               % [show(p) for p in pushes], line_of(loop))
@@ -169,3 +180,35 @@ def revcomp_rules(ctx):
     res = fv.term(fv.body.get("expr")) if fv.body.get("expr") else ("none",)
     ctx.check("C02.S1", "rev_comp:result", res == av, "accumulator returned",
               "rev_comp returns `%s`, not the accumulator" % show(res), line_of(fv.body))
+
+
+
+def table_decode_rules(ctx, fv, tab):
+    """alternative shape: `LETTERS[(code & 3) as usize]` with a compiler-evaluated [char; 4] / [u8; 4] constant"""
+    idx = [n for n in fv.nodes if n.get("k") == "index" and fv.term(n["e"])[0] == "const"]
+    if len(idx) != 1:
+        return False
+    n = idx[0]
+    c = ctx.prog.consts.get(fv.term(n["e"])[1])
+    letters = None
+    if c is not None and c.get("chars"):
+        letters = c["chars"]
+    elif c is not None and c.get("bytes"):
+        letters = [chr(b) for b in c["bytes"]]
+    if letters is None:
+        return False
+    it = fv.term(n["i"])
+    ok = it[0] == "bin" and it[1] == "&" and L(3) in (it[2], it[3])
+    ctx.check("C02.T1", "numeric_to_kmer:scrutinee", ok, "digit = %s" % show(it),
+              "decode index is `%s`, expected `<code> & 3`" % show(it), line_of(n))
+    for d, letter in DECODE_SPEC.items():
+        got = letters[d] if d < len(letters) else None
+        ctx.check("C02.T1", "numeric_to_kmer:digit_%d" % d, got == letter, "%d -> %r" % (d, letter),
+                  "digit %d decodes to %r, the property requires %r" % (d, got, letter), line_of(n))
+        if got is not None and len(got) == 1:
+            ctx.check("C02.T1", "numeric_to_kmer:reencode_%d" % d, tab[ord(got)] == d, "TABLE[%r] = %d" % (got, d),
+                      "decoded letter %r re-encodes to %d, not %d" % (got, tab[ord(got)], d), line_of(n))
+    ctx.check("C02.T1", "numeric_to_kmer:no_extra", len(letters) == 4, "exactly four letters",
+              "letter table has %d entries" % len(letters), line_of(n))
+    loop_rules(ctx, fv, n)
+    return True
